@@ -804,3 +804,87 @@ func Show(v reflect.Value) string {
 	}
 	return string(b)
 }
+
+// Scramble overwrites, in place, everything reachable from a result struct that lives behind a
+// reference (slice elements, map entries, pointees, free-form values), the way an owner of the
+// result may: elements are replaced, slices reversed and appended to within their capacity, map
+// entries replaced and added. A later unmarshal of the same document must not see any of it.
+func Scramble(v reflect.Value) {
+	scramble(v, 0)
+}
+
+func scrambleLeaf(v reflect.Value) {
+	if !v.CanSet() {
+		return
+	}
+	switch v.Kind() {
+	case reflect.Bool:
+		v.SetBool(!v.Bool())
+	case reflect.Int, reflect.Int8, reflect.Int16, reflect.Int32, reflect.Int64:
+		v.SetInt(^v.Int())
+	case reflect.Uint, reflect.Uint8, reflect.Uint16, reflect.Uint32, reflect.Uint64:
+		v.SetUint(^v.Uint())
+	case reflect.Float32, reflect.Float64:
+		v.SetFloat(-v.Float() - 1)
+	case reflect.String:
+		v.SetString(v.String() + "~scrambled")
+	}
+}
+
+func scramble(v reflect.Value, depth int) {
+	if depth > 12 {
+		return
+	}
+	switch v.Kind() {
+	case reflect.Ptr:
+		if !v.IsNil() {
+			scramble(v.Elem(), depth+1)
+		}
+	case reflect.Interface:
+		if !v.IsNil() {
+			switch x := v.Elem().Interface().(type) {
+			case map[string]any:
+				for k := range x {
+					x[k] = "~scrambled"
+				}
+				x["~scrambled"] = true
+			case []any:
+				for i := range x {
+					x[i] = "~scrambled"
+				}
+			}
+		}
+	case reflect.Struct:
+		for i := 0; i < v.NumField(); i++ {
+			scramble(v.Field(i), depth+1)
+		}
+	case reflect.Slice:
+		n := v.Len()
+		for i := 0; i < n; i++ {
+			scramble(v.Index(i), depth+1)
+		}
+		for i, j := 0, n-1; i < j; i, j = i+1, j-1 {
+			tmp := reflect.New(v.Type().Elem()).Elem()
+			tmp.Set(v.Index(i))
+			v.Index(i).Set(v.Index(j))
+			v.Index(j).Set(tmp)
+		}
+		if v.CanSet() && n > 0 && v.Cap() >= n {
+			// drop the tail and append within capacity: writes into the shared backing array, if there is one
+			v.Set(reflect.Append(v.Slice(0, n-1), v.Index(0)))
+		}
+	case reflect.Map:
+		for _, k := range v.MapKeys() {
+			ev := v.MapIndex(k)
+			nv := reflect.New(ev.Type()).Elem()
+			nv.Set(ev)
+			scramble(nv, depth+1)
+			v.SetMapIndex(k, nv)
+		}
+		if v.Len() > 0 && v.Type().Key().Kind() == reflect.String {
+			v.SetMapIndex(reflect.ValueOf("~scrambled").Convert(v.Type().Key()), reflect.Zero(v.Type().Elem()))
+		}
+	default:
+		scrambleLeaf(v)
+	}
+}
